@@ -33,6 +33,7 @@ pub enum Obs {
 }
 
 fn observe(s: &Subject, schedule: Vec<((u64, u64), Perm)>) -> (Obs, Vec<IterEvent>) {
+    set_context(&format!("subject {} under schedule {:?}\n{}", s.name, schedule, s.src));
     begin_run(schedule);
     let r = catch(|| {
         // the constants map is built inside the run so that its identity is part of the run
@@ -175,6 +176,55 @@ pub fn subjects(tier: Tier) -> Vec<Subject> {
         consts: vec![],
         register: false,
     });
+    // recursive definitions reached from outside their cycle: which definition is examined first
+    // depends on the iteration order of the definition maps
+    out.push(Subject {
+        name: "recursive-structs-with-outside-users".into(),
+        src: "struct A { b: B }\nstruct B { c: [C; 1] }\nstruct C { b: (u8, B) }\nstruct Z { c: C }\nstruct Y { z: Z, a: A }\npub fn main(x: u8) -> u8 {\n  x\n}\n".into(),
+        consts: vec![],
+        register: false,
+    });
+    out.push(Subject {
+        name: "recursive-enums-with-outside-users".into(),
+        src: "enum O { U, V(P) }\nenum P { U, V(Q) }\nenum Q { U, V(R) }\nenum R { U, V(P) }\nenum N { U, V(O, R) }\npub fn main(x: u8) -> u8 {\n  x\n}\n".into(),
+        consts: vec![],
+        register: false,
+    });
+    // large subjects: maps with more entries than any size threshold one might put on a cache
+    {
+        let mut src = String::from("pub fn main(xs: [u8; 96], d: u8) -> u16 {\n  let mut acc = 0u16;\n  for x in xs {\n    acc = acc + ((x / d) as u16);\n  }\n  acc\n}\n");
+        out.push(Subject { name: "many-panic-sites-loop-96".into(), src: src.clone(), consts: vec![], register: false });
+        src = String::new();
+        for k in 0..70 {
+            src.push_str(&format!("const C{k}: u8 = {}u8;\n", k + 1));
+        }
+        src.push_str("pub fn main(x: u8) -> u8 {\n  let mut s = x;\n");
+        for k in 0..70 {
+            src.push_str(&format!("  s = s ^ C{k};\n"));
+        }
+        src.push_str("  s\n}\n");
+        out.push(Subject { name: "many-consts-70".into(), src, consts: vec![], register: false });
+        let mut src = String::new();
+        for k in 0..70 {
+            src.push_str(&format!("fn f{k}(v: u8) -> u8 {{\n  v / {}u8 + {}u8\n}}\n", k + 1, k % 7));
+        }
+        src.push_str("pub fn main(x: u8) -> u8 {\n  let mut s = x;\n");
+        for k in 0..70 {
+            src.push_str(&format!("  s = s ^ f{k}(s);\n"));
+        }
+        src.push_str("  s\n}\n");
+        out.push(Subject { name: "many-fns-70".into(), src, consts: vec![], register: true });
+        let mut src = String::from("struct W {");
+        for k in 0..70 {
+            src.push_str(&format!(" f{k}: u8,"));
+        }
+        src.push_str(" }\nenum V {");
+        for k in 0..70 {
+            src.push_str(&format!(" V{k}(u8),"));
+        }
+        src.push_str(" }\npub fn main(w: W, v: V) -> u8 {\n  let W { f3, f60, .. } = w;\n  match v {\n    V::V5(a) => a + f3,\n    V::V66(b) => b / f60,\n    _ => w.f69,\n  }\n}\n");
+        out.push(Subject { name: "wide-struct-and-enum-70".into(), src, consts: vec![], register: false });
+    }
     out.push(Subject {
         name: "absent-party-several-consts".into(),
         src: "const A: u8 = P::A;\nconst B: u8 = P::B;\nconst C: usize = Q::C;\nconst D: usize = Q::D;\npub fn main(x: [u8; C]) -> u8 {\n  x[0] + A + B + (D as u8)\n}\n".into(),
